@@ -1,6 +1,8 @@
 SPECIFICATION Spec
 CONSTANTS
   NULL = NULL
+  PINF = PINF
+  NINF = NINF
   TabCols <- SIM_TabCols
   ColVals <- SIM_ColVals
   Kind <- MC_Kind
